@@ -9,6 +9,10 @@ open Io
    fromsphinx <sphinx tokens ...>                       -> inventory
    decode <bytes> | rstrip <str> | brstrip <bytes> | split3 <str> | splitlines <str>
    pjoin <a> <b> | match <str> | contains <sub> <s>
+   cli <domain> <otype> <name> <loc|~> <base|~> <inventory tokens ...>   -> filtered inventory
+   clifetch <uri> <r1> <r2> <rf>   r = ok|exc: outcome of loading uri / uri+"/objects.inv" via urlopen
+                                   and of loading uri via open  -> "ok <U1|U2|F> <base|~>" or !exc
+   fetch <uri>                     -> U (urlopen) | F (open)
 
    table: per byte of Z the bytes emitted, ';' separated; '!' = zlib.error; '.' = empty table *)
 
@@ -103,6 +107,26 @@ let handle (fs : string list) : string =
       (match match_line_exec (str_of_field s) with
        | None -> "~"
        | Some ((((a, b), c), d), e) -> String.concat " " (List.map field_of_str [a; b; c; d; e]))
+  | "cli" :: qd :: qo :: qt :: loc :: base :: toks ->
+      show_inv (cli_filter (parse_inv toks) (ostr_of_field base) (str_of_field qd) (str_of_field qo)
+                  (str_of_field qt) (ostr_of_field loc))
+  | ["clifetch"; uri; r1; r2; rf] ->
+      let u = str_of_field uri in
+      let tag t = { inv_name = str_of_field t; inv_version = []; inv_base = None; inv_objects = [] } in
+      let objinv = str_of_field "47,111,98,106,101,99,116,115,46,105,110,118" in
+      let url_load x _ =
+        if x = u then (if r1 = "ok" then IOk (tag "85,49") else IRaise ValueErr)
+        else if x = u @ objinv then (if r2 = "ok" then IOk (tag "85,50") else IRaise ValueErr)
+        else IRaise ValueErr in
+      let file_load x _ = if x = u && rf = "ok" then IOk (tag "70") else IRaise ValueErr in
+      (match cli_fetch url_load file_load u with
+       | IOk (inv, b) -> "ok " ^ field_of_str inv.inv_name ^ " " ^ field_of_ostr b
+       | IRaise _ -> "!exc")
+  | ["fetch"; uri] ->
+      let tag t = { inv_name = str_of_field t; inv_version = []; inv_base = None; inv_objects = [] } in
+      (match fetch_inventory (fun _ _ -> IOk (tag "85")) (fun _ _ -> IOk (tag "70")) (str_of_field uri) None with
+       | IOk inv -> field_of_str inv.inv_name
+       | IRaise _ -> "!exc")
   | _ -> "!badcmd"
 
 let () = main handle
